@@ -1,0 +1,37 @@
+// Verification contracts (comment-only, compiled only with the "verif" build tag; read by /verif/govc).
+
+//go:build verif
+// +build verif
+
+package core
+
+// Property C16 — value conservation. CanTransfer / Transfer are the function values that NewEVMContext stores in
+// vm.Context; they are verified here against the clauses that core/vm assumes for the function TYPES
+// (`dynamic:CanTransferFunc`, `dynamic:TransferFunc` in core/vm/verif_contracts_c16.go), over the abstract state
+// (c16Sigma, c16Bal, c16Total) declared there.
+
+//@ func CanTransfer props C16
+//@ requires amount != nil
+//@ pure
+//@ ensures [guard] result == (c16Bal(c16Sigma, addr) >= big(amount))
+
+//@ func Transfer props C16
+//@ requires amount != nil
+//@ requires [can-transfer-checked] c16Bal(c16Sigma, sender) >= big(amount)
+//@ modifies c16Sigma
+//@ ensures [total-unchanged] c16Total(c16Sigma) == c16Total(old(c16Sigma))
+//@ ensures [zero-is-noop]    big(amount) == 0 ==> c16Sigma == old(c16Sigma)
+//@ ensures [debit]           sender != recipient ==> c16Bal(c16Sigma, sender) == c16Bal(old(c16Sigma), sender) - big(amount)
+//@ ensures [credit]          sender != recipient ==> c16Bal(c16Sigma, recipient) == c16Bal(old(c16Sigma), recipient) + big(amount)
+//@ ensures [self]            sender == recipient ==> c16Bal(c16Sigma, sender) == c16Bal(old(c16Sigma), sender)
+//@ ensures [no-overdraft]    big(amount) >= 0 ==> c16Bal(c16Sigma, sender) >= 0
+//@ ensures [others]          forall b: common.Address :: b != sender && b != recipient ==> c16Bal(c16Sigma, b) == c16Bal(old(c16Sigma), b)
+
+// The EVM context is wired to exactly these two functions, and the interpreter configuration to a well-formed jump table
+// (Run's precondition [table]).
+//@ func NewEVMContext props C16
+//@ ensures [wired-to-verified] result.CanTransfer == CanTransfer && result.Transfer == Transfer
+
+//@ func CombineVMConfig props C16
+//@ requires yp != nil
+//@ ensures [table-ok] c16TableOK(result.JumpTable)
